@@ -460,18 +460,25 @@ class Move(Field):
             else:
                 raise Exception()
 
-            return offset + (
+            next_offset = offset + (
                 (move_value - ((offset - start) % move_value)) % move_value
             )
         else:
             if self.reference == 'begins':
-                return move_value
+                next_offset = move_value
             elif self.reference == 'current-offset':
-                return offset + move_value
+                next_offset = offset + move_value
             elif self.reference == 'innermost-pkt':
-                return k['innermost-pkt-pos'] + move_value
+                next_offset = k['innermost-pkt-pos'] + move_value
             else:
                 raise Exception()
+
+        if next_offset < 0:
+            raise Exception(
+                "Cannot move to the negative position %i" % next_offset
+            )
+
+        return next_offset
 
     def init(self, packet, defaults):
         pass
@@ -517,6 +524,11 @@ class Move(Field):
                 offset = k['innermost-pkt-pos'] + move_value
             else:
                 raise Exception()
+
+        if offset < 0:
+            raise Exception(
+                "Cannot move to the negative position %i" % offset
+            )
 
         fragments.current_offset = offset
         return fragments
